@@ -21,6 +21,26 @@ def main(tier, seed, replay=None):
         c["ops"] = states.observe_at(rng, c, nsets=1)
         cases.append(c)
     results, nterms, nskip, hist = states.run_states(run, "C03", binp, cases, 4, lambda code: code >= 10 or code == 2, "Jacobian")
+    # the code-shaped formula U (U^T (W D_k C)) - W D_k C replayed exactly on the cached U and the reported coefficients
+    from . import num
+    jterms, jidx = [], []
+    for c, r in zip(cases, results):
+        if r.get("steps") is None:
+            continue
+        st = r["steps"]
+        for k, ob, jq, tb in states.triples(c, r):
+            if k + 3 < len(st) and st[k + 3]["op"] == "svd" and len(jterms) < (60 if tier == "quick" else 1500):
+                t = num.jac_impl_term(c, ob, tb, st[k + 3]["v"], jq)
+                if t is not None:
+                    jterms.append(t)
+                    jidx.append((c, r, k))
+    jcodes = coq_eval("C03", num.HEADER, jterms, per_file_timeout=1800)
+    jhist = {}
+    for (c, r, k), code, t in zip(jidx, jcodes, jterms):
+        jhist[code] = jhist.get(code, 0) + 1
+        if code != 0:
+            run.violation("Jacobian, state at step %d: column %s is not U (U^T (W D_k C)) - W D_k C for the cached factors (code %d)"
+                          % (k, code - 45 if code >= 45 else "?", code), {"case": c, "step": k, "coq_term": t})
     # a failing derivative at any index: no Jacobian at all (never a partially filled one)
     fcases = []
     for i in range(16 if tier == "quick" else 200):
@@ -49,7 +69,8 @@ def main(tier, seed, replay=None):
                 "model families incl. a parameter shared by two functions and functions of two parameters, 1-6 right-hand sides, all "
                 "weight kinds, four constructors, f32/f64; every column compared in exact arithmetic with -(I-P) W D_k C from the "
                 "certified inverse of the Gram matrix (Model/Numeric.spec_jac_col); plus a failing derivative at every index",
-        "code_histogram": {str(k): v for k, v in hist.items()}, "skipped_ill_conditioned": nskip, "failing_derivative_cases": len(fcases)})
+        "code_histogram": {str(k): v for k, v in hist.items()}, "skipped_ill_conditioned": nskip, "failing_derivative_cases": len(fcases),
+        "code_shaped_replays": len(jterms), "code_shaped_code_histogram": {str(k): v for k, v in jhist.items()}})
     run.samples = [{"ctor": c["ctor"], "scalar": c["scalar"], "meta": c["meta"]} for c in cases[:3]]
     run.assumptions = ["the differentiability of alpha -> C(alpha) (Golub-Pereyra) is not formalised; C03_gradient is the algebraic first-order identity",
                        "rounding margin 64 u kappa2 sqrt(N M)"]
